@@ -251,7 +251,7 @@ def run_subjects(ctx, pid_tag, exe_by_cfg, jobs, classify=None, use_driver=True,
     return stats
 
 
-def run_sweep(ctx, tag, harness, cfgs, args, prefixes, flags=("-fno-access-control",), timeout=1200, subject=None, ignore_known=()):
+def run_sweep(ctx, tag, harness, cfgs, args, prefixes, flags=(), timeout=1200, subject=None, ignore_known=()):
     """deterministic sweep harnesses (one run per configuration): the lines starting with one of `prefixes` are compared with the
     driver's output; `oracle-fail` lines and crashes are property failures with the harness command as the replay"""
     total = {}
